@@ -9,6 +9,7 @@ import (
 	"fmt"
 	"reflect"
 	"sort"
+	"sync"
 )
 
 // ---------------------------------------------------------------- fuel / depth guard
@@ -298,4 +299,30 @@ func RestoreGlobals() {
 			g.ptr.Elem().Set(cloneShallow(g.saved))
 		}
 	}
+}
+
+// ---------------------------------------------------------------- misuse of synchronisation objects
+
+var (
+	misuseMu sync.Mutex
+	misuse   []string
+)
+
+// ReportMisuse records a misuse of a synchronisation object noticed by the vsync shim (a lock value copied
+// after its first use): the harness reads and clears the list after every execution.
+func ReportMisuse(what string) {
+	misuseMu.Lock()
+	defer misuseMu.Unlock()
+	if len(misuse) < 100 {
+		misuse = append(misuse, what)
+	}
+}
+
+// TakeMisuse returns what was reported since the last call.
+func TakeMisuse() []string {
+	misuseMu.Lock()
+	defer misuseMu.Unlock()
+	m := misuse
+	misuse = nil
+	return m
 }
